@@ -4,6 +4,8 @@ package rules
 
 import (
 	"fmt"
+	"go/ast"
+	"go/token"
 	"go/types"
 	"sort"
 
@@ -18,13 +20,15 @@ import (
 // Ctx is what a rule gets.
 type Ctx struct {
 	palFlags *paletteFlagModel
-	P      *load.Program
-	R      *report.Run
-	Tier   string
-	global *sym.Mem
+	P        *load.Program
+	R        *report.Run
+	Tier     string
+	global   *sym.Mem
 	decCache map[bool][]*opSummary
 	eff      *effects.Analysis
 	initPkgs map[*ssa.Package]bool
+	mapLits  map[string][]sym.MapPair
+	frozen   map[string]bool
 }
 
 // RuleFunc implements one or more rules of a property.
@@ -66,9 +70,14 @@ func (c *Ctx) Interp() *sym.Interp {
 		in.FreezeGlobals()
 		c.global = in.Global
 		c.initPkgs = in.InitPkgs
+		c.mapLits = in.MapLits
+		c.frozen = c.frozenMaps(in)
+		in.FrozenMaps = c.frozen
 	} else {
 		in.Global = c.global
 		in.InitPkgs = c.initPkgs
+		in.MapLits = c.mapLits
+		in.FrozenMaps = c.frozen
 	}
 	return in
 }
@@ -150,4 +159,74 @@ func (c *Ctx) FPos(fn *ssa.Function) string {
 		return "-"
 	}
 	return c.P.Pos(fn.Pos())
+}
+
+// frozenMaps decides which package-level maps of the module are tables: built by a literal in the package
+// initialiser and, everywhere else in the module, only ever loaded in order to be looked up in, ranged over or
+// measured. Nothing can change such a map after initialisation (it is not exported either). Returns object ids.
+func (c *Ctx) frozenMaps(in *sym.Interp) map[string]bool {
+	out := map[string]bool{}
+	for _, rel := range pkgOrder {
+		sp := c.P.Pkg(rel)
+		if sp == nil {
+			continue
+		}
+		for _, mem := range sp.Members {
+			g, ok := mem.(*ssa.Global)
+			if !ok || ast.IsExported(g.Name()) {
+				continue
+			}
+			pt, ok := g.Type().(*types.Pointer)
+			if !ok {
+				continue
+			}
+			if _, isMap := pt.Elem().Underlying().(*types.Map); !isMap {
+				continue
+			}
+			frozen := true
+			for _, fn := range c.P.AllFuncs() {
+				if isPkgInit(fn) {
+					continue
+				}
+				for _, b := range fn.Blocks {
+					for _, ins := range b.Instrs {
+						for _, op := range ins.Operands(nil) {
+							if op == nil || *op != ssa.Value(g) {
+								continue
+							}
+							ld, isLoad := ins.(*ssa.UnOp)
+							if !isLoad || ld.Op != token.MUL || ld.Referrers() == nil {
+								frozen = false
+								continue
+							}
+							for _, r := range *ld.Referrers() {
+								switch u := r.(type) {
+								case *ssa.Lookup:
+									if u.X != ssa.Value(ld) {
+										frozen = false
+									}
+								case *ssa.Range:
+								case *ssa.DebugRef:
+								case *ssa.Call:
+									if bi, ok := u.Common().Value.(*ssa.Builtin); !ok || bi.Name() != "len" {
+										frozen = false
+									}
+								default:
+									frozen = false
+								}
+							}
+						}
+					}
+				}
+			}
+			if !frozen {
+				continue
+			}
+			v := in.LoadAt(in.Global, in.GlobalObj(g), nil)
+			if v != nil && v.Op == "ptr" && v.Obj != nil {
+				out[v.Obj.ID] = true
+			}
+		}
+	}
+	return out
 }
